@@ -119,7 +119,7 @@ func main() {
 		return pk
 	}
 	met, dat, exp := load("metrics"), load("metrics/datum"), load("exporter")
-	x := xlate.NewLockXlate(met, dat, exp)
+	x := xlate.NewLockXlate(met, dat, exp).WithRuntime(load("runtime"))
 
 	entries := []entry{
 		{"metrics", "Metric.GetDatum", nil}, {"metrics", "Metric.RemoveOldestDatum", nil}, {"metrics", "Metric.RemoveDatum", nil},
@@ -129,6 +129,10 @@ func main() {
 		{"metrics", "Store.WriteMetrics", nil},
 		{"exporter", "Exporter.Collect", nil}, {"exporter", "Exporter.writeSocketMetrics", nil},
 		{"exporter", "Exporter.HandleVarz", nil}, {"exporter", "Exporter.HandleGraphite", nil}, {"exporter", "Exporter.HandleJSON", nil},
+		// the handle table and the vm input channels (startVM is inlined into CompileAndRun:
+		// it is entered with handleMu write-locked)
+		{"runtime", "Runtime.CompileAndRun", nil}, {"runtime", "Runtime.UnloadProgram", nil},
+		{"runtime", "New.lineloop", nil},
 	}
 	var dnames []string
 	for k, d := range dat.Funcs {
@@ -149,7 +153,13 @@ func main() {
 	seenClass := map[string]bool{}
 	allIR := map[string]any{}
 	for i, e := range entries {
-		ir, err := x.Entry(e.Pkg, e.Fn, e.Fresh)
+		var ir []xlate.LNode
+		var err error
+		if e.Fn == "New.lineloop" {
+			ir, err = x.LineLoopEntry()
+		} else {
+			ir, err = x.Entry(e.Pkg, e.Fn, e.Fresh)
+		}
 		if err != nil {
 			// a listed function that no longer exists: nothing to check, but say so
 			out.Count("entry missing: " + e.Fn)
@@ -236,7 +246,7 @@ func main() {
 			// the same function, LabelValues first
 			for _, want := range []string{"Metric.LabelValues", ""} {
 				for _, fn := range r.Fns {
-					for _, st := range flaggedByFn[fn] {
+					for _, st := range append(append([]xlate.Site{}, flaggedByFn[fn]...), flaggedByFn[fn+".lineloop"]...) {
 						if cl == "" && (want == "" || st.Field == want) && !strings.HasPrefix(st.Field, "unknown") && st.Field != "loop" {
 							cl = classOf(st)
 						}
@@ -426,12 +436,25 @@ func firstTouch(rounds, workers int) []ftFinding {
 	return out
 }
 
+func normFn(fn string) string {
+	fn = strings.TrimPrefix(fn, "github.com/google/mtail/internal/")
+	if i := strings.Index(fn, "("); i > 0 && strings.HasSuffix(fn, ")") && !strings.Contains(fn[i:], "*") {
+		fn = fn[:i] // argument list of a panic trace frame
+	}
+	fn = regexp.MustCompile(`\(\*?(\w+)\)`).ReplaceAllString(fn, "$1")
+	fn = regexp.MustCompile(`\.func\d+.*$|\(.*\)$`).ReplaceAllString(fn, "")
+	if i := strings.Index(fn, "."); i >= 0 {
+		fn = fn[i+1:]
+	}
+	return fn
+}
+
 type raceRep struct {
 	Fns, Pos []string
 	Text     string
 }
 
-var frameRe = regexp.MustCompile(`(?m)^  (github\.com/google/mtail/internal/(?:metrics|exporter)[^\n]*)\n\s+(\S+?):(\d+)`)
+var frameRe = regexp.MustCompile(`(?m)^\s*(github\.com/google/mtail/internal/(?:metrics|exporter|runtime)[^\n]*)\n\s+(\S+?):(\d+)`)
 
 func raceStress(a vlib.Args, dur string) ([]raceRep, string) {
 	verif := os.Getenv("VERIF_DIR")
@@ -473,18 +496,46 @@ func raceStress(a vlib.Args, dur string) ([]raceRep, string) {
 		}
 		return nil, "race build failed (search aid unavailable): " + s
 	}
-	run := exec.Command(bin, "-dur", dur, "-seed", fmt.Sprint(a.Seed))
-	run.Env = append(os.Environ(), "GORACE=halt_on_error=0 log_path="+filepath.Join(tmp, "race"))
-	outb, err := run.Output()
-	note := "ran " + dur + ": " + strings.TrimSpace(string(outb))
-	if err != nil {
-		note += " (exit: " + err.Error() + ")"
-	}
-	var sum struct{ Increments, Total int64 }
 	var reps []raceRep
-	if json.Unmarshal(outb, &sum) == nil && sum.Increments != sum.Total {
-		reps = append(reps, raceRep{Fns: []string{"lost-increment"}, Pos: []string{"-"},
-			Text: fmt.Sprintf("counter total %d after %d increments", sum.Total, sum.Increments)})
+	note := ""
+	for _, sc := range []string{"store", "runtime", "push"} {
+		d := dur
+		if sc != "store" {
+			d = "2s"
+			if a.Thorough() {
+				d = "8s"
+			}
+		}
+		run := exec.Command(bin, "-dur", d, "-seed", fmt.Sprint(a.Seed), "-scenario", sc)
+		run.Env = append(os.Environ(), "GORACE=halt_on_error=0 log_path="+filepath.Join(tmp, "race"))
+		var stderr strings.Builder
+		run.Stderr = &stderr
+		outb, err := run.Output()
+		note += sc + " " + d + ": " + strings.TrimSpace(string(outb))
+		if err != nil {
+			note += " (exit: " + err.Error() + ")"
+		}
+		note += "; "
+		// a Go panic of the code under test (not the runtime's own "fatal error:
+		// concurrent map ..." which is a consequence of the known races)
+		if i := strings.Index(stderr.String(), "panic: "); i >= 0 {
+			msg := stderr.String()[i:]
+			first := strings.SplitN(msg, "\n", 2)[0]
+			fr := frameRe.FindStringSubmatch(msg)
+			// attribute the panic to the first mtail frame: if a flagged access is there
+			// (or in that function) it is a consequence of that finding
+			fn, pos := "panic:"+strings.TrimPrefix(first, "panic: "), "-"
+			if fr != nil {
+				fn, pos = normFn(fr[1]), filepath.Base(fr[2])+":"+fr[3]
+			}
+			reps = append(reps, raceRep{Fns: []string{fn}, Pos: []string{pos},
+				Text: "scenario " + sc + ": " + first + " at " + pos + "\n" + msg[:min(len(msg), 1200)]})
+		}
+		var sum struct{ Increments, Total int64 }
+		if sc == "store" && json.Unmarshal(outb, &sum) == nil && sum.Increments != sum.Total {
+			reps = append(reps, raceRep{Fns: []string{"lost-increment"}, Pos: []string{"-"},
+				Text: fmt.Sprintf("counter total %d after %d increments", sum.Total, sum.Increments)})
+		}
 	}
 	logs, _ := filepath.Glob(filepath.Join(tmp, "race.*"))
 	for _, lf := range logs {
@@ -504,14 +555,7 @@ func raceStress(a vlib.Args, dur string) ([]raceRep, string) {
 				if m == nil {
 					continue
 				}
-				fn := m[1]
-				fn = strings.TrimPrefix(fn, "github.com/google/mtail/internal/")
-				fn = regexp.MustCompile(`\(\*?(\w+)\)`).ReplaceAllString(fn, "$1")
-				fn = regexp.MustCompile(`\.func\d+.*$|\(\)$`).ReplaceAllString(fn, "")
-				fn = strings.TrimSuffix(fn, "()")
-				if i := strings.Index(fn, "."); i >= 0 {
-					fn = fn[i+1:]
-				}
+				fn := normFn(m[1])
 				r.Fns = append(r.Fns, fn)
 				r.Pos = append(r.Pos, filepath.Base(m[2])+":"+m[3])
 				if len(r.Fns) == 2 {
